@@ -12,9 +12,38 @@ def drain():
     return _verif.drain()
 
 
+PRIOR_KINDS = ["coarse", "solver_options", "excitation", "poisson", "other_bounds"]
+
+
+def gen_prior(rng, S, force=None):
+    """an earlier legitimate fit of the same system in the same process: dict(kind, model, kw (solver keyword pass-through), B
+    (one or two targets that are captures of in-bound intensities, i.e. positive), optionally other bounds lb/ub)"""
+    kind = force if force is not None else str(rng.choice(["none"] * 4 + [k_ for k_ in PRIOR_KINDS if k_ != "excitation"]))
+    if kind == "none":
+        return dict(kind=kind)
+    nb = 1 if kind == "excitation" else int(rng.integers(1, 3))
+    P = dict(kind=kind, model="gaussian", kw={}, B=np.array([gen_target(rng, S, "inside") for _ in range(nb)]))
+    if kind == "coarse":
+        # first-order solver, loose tolerance, a handful of iterations
+        P["kw"] = dict(solver="SCS", eps=float(rng.choice([0.3, 0.1, 0.03])), max_iters=int(rng.choice([5, 20, 50])))
+    elif kind == "solver_options":
+        P["kw"] = [dict(solver="OSQP", eps_abs=1e-1, eps_rel=1e-1, max_iter=int(rng.choice([10, 40]))),
+                   dict(solver="CLARABEL", max_iter=int(rng.choice([2, 5])), tol_gap_abs=1e-1, tol_gap_rel=1e-1, tol_feas=1e-1),
+                   dict(solver="SCS", eps=1e-2, acceleration_lookback=0, max_iters=int(rng.choice([30, 200]))),
+                   dict(solver="OSQP", polish=False, eps_abs=1e-2, eps_rel=1e-2, warm_start=False)][int(rng.integers(4))]
+    elif kind in ("excitation", "poisson"):
+        P["model"] = kind
+        P["B"] = np.maximum(P["B"], 0.0625)
+    elif kind == "other_bounds":
+        lb = S["lb"] + 0.25
+        P["lb"] = lb
+        P["ub"] = np.where(np.isfinite(S["ub"]), lb + 0.5 * np.maximum(S["ub"] - S["lb"], 0.5), np.inf)
+    return P
+
+
 def run(R):
     import dreye
-    from dreye.api.optimize.lsq_linear import lsq_linear
+    from dreye.api.optimize.lsq_linear import lsq_linear, lsq_linear_excitation
     nsys = 28 if R.tier == "quick" else 340
     R.rule = ("well-scaled systems (1-5 receptors x 1-8 sources; extent 1-100, bounds in [0.05,10] or default (0,inf), cond<=1e3), "
               "K none/scalar/vector/matrix, baseline 0/scalar/vector, per-receptor and per-sample weights; targets inside, on the "
@@ -24,7 +53,12 @@ def run(R):
               "ExtrasA.stacked_objective_sum, so every row is still certified on its own, with per-source bounds that differ "
               "between sources), six targets per call or one single-row call; targets, per-sample weights, bounds and the "
               "capture matrix handed in as C-ordered / Fortran-ordered / strided arrays or lists (the model sees values only; "
-              "arguments must be unchanged afterwards). For every row the exact optimum is computed in "
+              "arguments must be unchanged afterwards). Histories: two thirds of the calls are preceded, in the same process (on the same "
+              "estimator object when the judged fit goes through one), by an earlier legitimate fit of the same system -- coarse "
+              "first-order solver settings (SCS, eps 0.03-0.3, 5-50 iterations), another solver with its own option names "
+              "(OSQP / CLARABEL / SCS with loose tolerances, few iterations, warm_start=False), another model (poisson, "
+              "excitation), or other bounds -- whose outcome is not judged; the judged fit must satisfy the same predicates "
+              "as without a history (a fit does not depend on what was fitted before it). For every row the exact optimum is computed in "
               "Q from the active set suggested by the answer and accepted only by the Lean-verified exact KKT check (theorem "
               "kkt_global_min => optimal against every in-bound point); otherwise a Frank-Wolfe gap certificate. Non-trivial: a "
               "bound active at the optimum, or target outside the gamut, or under-determined.")
@@ -68,6 +102,18 @@ def run(R):
                 Ag = as_given(rngm, S["A"], R, "A"); lbg = as_given(rngm, S["lb"], R, "lb"); ubg = as_given(rngm, S["ub"], R, "ub")
             else:
                 Ag, lbg, ubg = S["A"], S["lb"], S["ub"]
+            # history: a program fits more than once. Before the judged call an EARLIER legitimate fit may have run in the same
+            # process (same estimator object when the judged call goes through one): a quick-and-coarse look with a first-order
+            # solver and loose tolerances / few iterations, another solver with its own option names, another model (poisson,
+            # excitation), other bounds -- all through the documented interfaces. Nothing is asserted about the earlier fit
+            # (it may even stop at its iteration limit and raise); the judged call is an independent problem and is held to
+            # the same predicates as without a history. Drawn from its own stream: systems and targets are unchanged.
+            rngh = R.rng(4, si, 0 if mode == "default" else 1)
+            force = PRIOR_KINDS[(si // 3) % len(PRIOR_KINDS)] if si % 3 == 0 else None
+            if force == "excitation" and mode != "default":
+                force = "poisson"       # (the quasi-convex bisection takes about a second per row: one excitation fit per 15 systems)
+            prior = gen_prior(rngh, S, force=force)
+            R.count("history:earlier-fit=%s" % prior["kind"])
             drain()
             if via.startswith("estimator"):
                 filt = np.hstack([np.zeros((nf, 1)), S["A"], np.zeros((nf, 1))])
@@ -76,6 +122,12 @@ def run(R):
                 def impl(*watched):
                     est = dreye.ReceptorEstimator(filt, domain=1.0, K=(1.0 if S["K"] is None else S["K"]), baseline=S["baseline"],
                                                   w=(1.0 if Wg is None else Wg), sources=src, lb=lbg, ub=ubg)
+                    if prior["kind"] != "none":
+                        if "ub" in prior:
+                            est.register_bounds(lb=prior["lb"].copy(), ub=prior["ub"].copy())
+                        prior["status"] = call(est.fit, prior["B"].copy(), model=prior["model"], **prior["kw"])[0]
+                        if "ub" in prior:
+                            est.register_bounds(lb=lbg, ub=ubg)
                     if via == "estimator":
                         return est.fit(Bg, **kw)
                     # history: other targets with per-sample weights were registered (and fitted) before
@@ -86,11 +138,18 @@ def run(R):
                     return est.X, est.B
             else:
                 def impl(*watched):
+                    if prior["kind"] != "none":
+                        f_ = lsq_linear_excitation if prior["model"] == "excitation" else lsq_linear
+                        mkw = {} if prior["model"] == "excitation" else dict(model=prior["model"])
+                        prior["status"] = call(f_, S["A"].copy(), prior["B"].copy(), lb=prior.get("lb", S["lb"]).copy(), ub=prior.get("ub", S["ub"]).copy(),
+                                               K=S["K"], baseline=S["baseline"], **mkw, **prior["kw"])[0]
                     return lsq_linear(Ag, Bg, lb=lbg, ub=ubg, W=Wg, K=S["K"], baseline=S["baseline"], return_pred=True, **kw)
             # frame condition: the arrays handed to the fit are unchanged afterwards (call() snapshots its array arguments)
             st, out = call(impl, *[a for a in (Ag, Bg, lbg, ubg, Wg, S["K"], S["baseline"], filt, src) if isinstance(a, np.ndarray)]) \
                 if via.startswith("estimator") else call(impl, *[a for a in (Ag, Bg, lbg, ubg, Wg, S["K"], S["baseline"]) if isinstance(a, np.ndarray)])
             # solver status per row: every 'batch' event names the rows written by the preceding solve (later fits overwrite earlier ones)
+            if prior["kind"] != "none":
+                R.count("history:earlier-fit-ended:%s" % ("ok" if prior.get("status") == "ok" else "raised"))
             statuses = [None] * nrow; last = None
             for e in drain():
                 if e["event"] == "solve":
@@ -100,7 +159,8 @@ def run(R):
                         statuses[i] = last
             c = dict(k=k, via=via, mode=mode, nf=nf, ns=ns, A=S["A"], K=S["K"], K_kind=S["K_kind"], baseline=S["baseline"],
                      baseline_kind=S["baseline_kind"], lb=S["lb"], ub=S["ub"], W=W, W_kind=wk, B=B, target_kinds=kinds_s, cond=S["cond"],
-                     batch_size=bs, n_rows=nrow)
+                     batch_size=bs, n_rows=nrow, earlier_fit=dict(kind=prior["kind"], model=prior.get("model"), options=prior.get("kw"), B=prior.get("B"),
+                                                                  lb=prior.get("lb"), ub=prior.get("ub")))
             for key in ("via", "mode", "K_kind", "baseline_kind", "W_kind"):
                 R.count("%s:%s" % (key, c[key]))
             R.count("ub:" + S["ub_kind"]); R.count("lb:" + S["lb_kind"])
